@@ -1563,13 +1563,25 @@ impl SystemState {
             0 => todo!("wait target {}", target),
             -1 => {
                 // any child
-                let mut result = None;
+                // Prefer a child whose state has changed. Otherwise, prefer a
+                // child that is still alive, so that the caller keeps waiting
+                // for it rather than concluding there is no child to wait for
+                // because another child has already been awaited.
+                let mut result: Option<(Pid, &mut Process)> = None;
                 for (pid, process) in &mut self.processes {
                     if process.ppid == parent_pid {
-                        let changed = process.state_has_changed();
-                        result = Some((*pid, process));
-                        if changed {
+                        if process.state_has_changed() {
+                            result = Some((*pid, process));
                             break;
+                        }
+                        let is_better = match &result {
+                            None => true,
+                            Some((_, current)) => {
+                                !current.state().is_alive() && process.state().is_alive()
+                            }
+                        };
+                        if is_better {
+                            result = Some((*pid, process));
                         }
                     }
                 }
@@ -3160,6 +3172,36 @@ mod tests {
 
         let result = env.system.wait(pid);
         assert_eq!(result, Ok(Some((pid, ProcessState::exited(5)))));
+    }
+
+    #[test]
+    fn wait_for_any_child_with_running_child_and_awaited_child() {
+        let (system, mut executor) = virtual_system_with_executor();
+        let mut env = Env::with_system(system);
+
+        // The first child keeps running.
+        let running_pid = env
+            .run_in_child_process((), |child_env: Env<VirtualSystem>, ()| async move {
+                std::future::pending::<()>().await;
+                drop(child_env);
+            })
+            .0
+            .unwrap();
+        // The second child, which has a larger process ID, exits and is awaited.
+        let exited_pid = env
+            .run_in_child_process((), |child_env: Env<VirtualSystem>, ()| async move {
+                child_env.system.exit(ExitStatus(5)).await;
+            })
+            .0
+            .unwrap();
+        executor.run_until_stalled();
+        let result = env.system.wait(Pid::ALL);
+        assert_eq!(result, Ok(Some((exited_pid, ProcessState::exited(5)))));
+
+        // There still is a running child, so this is not an ECHILD error.
+        let result = env.system.wait(Pid::ALL);
+        assert_eq!(result, Ok(None));
+        _ = running_pid;
     }
 
     #[test]
